@@ -562,7 +562,12 @@ def c04(payload):
             # far enough that the offset of the antenna from the origin (the far field's reference point) is below 1 %
             ext = float(np.abs(allp).max()) + maxseg
             R = max(lam * rng.choice([60, 200, 1000]), 150 * ext)
-            th = math.radians(rng.uniform(15, 75)); ph = math.radians(rng.uniform(0, 360))
+            # not into a null of the pattern: there the (1/R^2) radial and reactive parts dominate at any finite distance
+            cand = [(math.radians(rng.uniform(15, 75)), math.radians(rng.uniform(0, 360))) for _ in range(6)]
+            def _ffmag(tp):
+                m.compute_far_field(Angle(math.degrees(tp[0]), 0, 1), Angle(math.degrees(tp[1]), 0, 1))
+                return math.hypot(abs(m.far_field.e_theta[0][0]), abs(m.far_field.e_phi[0][0]))
+            th, ph = max(cand, key=_ffmag)
             u = np.array([math.sin(th) * math.cos(ph), math.sin(th) * math.sin(ph), math.cos(th)])
             P = 10 ** rng.uniform(-1, 2)
             m.compute_near_field(list(R * u), [1.0, 1.0, 1.0], [1, 1, 1], P)
